@@ -5,7 +5,7 @@ use crate::canon::Canon;
 use crate::ctx::{catch, Ctx, Tier, Violation};
 use crate::docs::{self, Doc, DocFn, ALL_DOCS};
 use crate::rng::{mix, Fnv, Rng};
-use crate::simio::{Kind, Script, SimReader, Step};
+use crate::simio::{Kind, NoStdSource, Script, SimReader, Step};
 use crate::tracker;
 use epserde::deser::{self, Deserialize};
 use std::io::BufReader;
@@ -16,6 +16,8 @@ pub const ID: &str = "C14";
 pub enum Src {
     Sim,
     Buf(usize),
+    /// the scripted source exposed directly through the library's `ReadNoStd`
+    NoStd,
 }
 #[derive(Clone, Debug, serde::Serialize, serde::Deserialize)]
 pub struct Case {
@@ -43,6 +45,11 @@ fn exec<D: Doc>(p: &PrepDoc<D>, src: Src, script: &Script) -> Result<Info, Viola
         Src::Sim => {
             let r = catch(|| tracker::in_lib(|| D::deserialize_full(&mut rdr)));
             (r, rdr.stats.clone(), rdr.over_budget)
+        }
+        Src::NoStd => {
+            let mut ns = NoStdSource(rdr);
+            let r = catch(|| tracker::in_lib(|| D::deserialize_full(&mut ns)));
+            (r, ns.0.stats.clone(), ns.0.over_budget)
         }
         Src::Buf(c) => {
             let mut br = BufReader::with_capacity(c, rdr);
@@ -146,7 +153,7 @@ fn cases(seed: u64, doc: &str, vi: u64, len: usize, tier: Tier) -> Vec<(Src, Scr
     let mut out = Vec::new();
     let cap = *r.pick(&BUF_CAPS);
     // every failure position: hard error and premature EOF, plain source and buffered source
-    for src in [Src::Sim, Src::Buf(cap)] {
+    for src in [Src::Sim, Src::Buf(cap), Src::NoStd] {
         for k in 0..len {
             out.push((src, Script::fail_at(k, Kind::ALL[k % Kind::ALL.len()])));
             out.push((src, Script::zero_at(k)));
@@ -164,7 +171,11 @@ fn cases(seed: u64, doc: &str, vi: u64, len: usize, tier: Tier) -> Vec<(Src, Scr
         Tier::Thorough => 120,
     };
     for _ in 0..nseeded {
-        let src = if r.chance(1, 3) { Src::Buf(*r.pick(&BUF_CAPS)) } else { Src::Sim };
+        let src = match r.below(6) {
+            0 | 1 => Src::Buf(*r.pick(&BUF_CAPS)),
+            2 => Src::NoStd,
+            _ => Src::Sim,
+        };
         out.push((src, seeded_script(&mut r, len)));
     }
     out
